@@ -41,9 +41,18 @@ def _site(tag):
         raise st.fault[1]()
 
 
+class HangDetected(BaseException):
+    """More events in one run than any program of the fragments can produce."""
+
+
+MAX_EVENTS = 20000
+
+
 def ev(tag):
     """Mark that control reached this point."""
     STATE.log.append((now(), tag))
+    if len(STATE.log) > MAX_EVENTS:
+        raise HangDetected(tag)
     _site(tag)
     return True
 
